@@ -9,6 +9,7 @@ Per property: (1) proof gate  (2) correspondence model <-> /repo on the
 property's suite, debug and release  (3) direct oracles of the harness
 (4) verdict  (5) evidence.
 """
+import signal
 import hashlib
 import json
 import os
@@ -84,12 +85,24 @@ FAULT_SUITES = {"C04": (1, 2, 3, 4), "C10": (3, 4), "C15": (2, 4), "C16": (4,), 
 LEVEL = {"C06": "other"}
 
 
-def sh(cmd, **kw):
+def sh(cmd, timeout=None, **kw):
+    """run a shell command in its own process group; on timeout the WHOLE group is killed (a crate change that makes the
+    harness loop forever must end in a report, not in a check that hangs on the pipes of a surviving grandchild)"""
+    p = subprocess.Popen(cmd, shell=True, text=True, stdout=subprocess.PIPE, stderr=subprocess.PIPE, env=ENV,
+                         start_new_session=True, **kw)
     try:
-        return subprocess.run(cmd, shell=True, text=True, capture_output=True, env=ENV, **kw)
-    except subprocess.TimeoutExpired as e:
-        out = e.stdout.decode(errors="replace") if isinstance(e.stdout, bytes) else (e.stdout or "")
-        return subprocess.CompletedProcess(cmd, 124, stdout=out, stderr="timeout")
+        o, e = p.communicate(timeout=timeout)
+        return subprocess.CompletedProcess(cmd, p.returncode, stdout=o, stderr=e)
+    except subprocess.TimeoutExpired:
+        try:
+            os.killpg(p.pid, signal.SIGKILL)
+        except OSError:
+            pass
+        try:
+            o, e = p.communicate(timeout=30)
+        except Exception:
+            o, e = "", ""
+        return subprocess.CompletedProcess(cmd, 124, stdout=o or "", stderr="timeout")
 
 
 def log(*a):
@@ -708,14 +721,14 @@ def miri_replay(prop, cases, model_obs, tmp, all_faults, shards=12, per_shard=14
         with open(cp, "w") as f:
             f.write("\n".join(cases[i] for i in mine) + "\n")
         op, fp, mk = f"{tmp}.miri{s}.i", f"{tmp}.miri{s}.f", f"{tmp}.miri{s}.marker"
-        p = subprocess.Popen(f"cd {ROOT}/harness && cargo +nightly miri run --offline -- {cp} {fp} {mk} > {op} 2> {op}.err",
+        p = subprocess.Popen(f"cd {ROOT}/harness && cargo +nightly miri run --offline -- {cp} {fp} {mk} > {op} 2> {op}.err", start_new_session=True,
                              shell=True, env=env)
         procs.append((mine, cp, op, fp, mk, p))
     # the element-shape scenario (zero-sized, 1-byte, padded, large, heap-owning layouts; small capacities) under Miri
     shp = None
     if prop in MIRI_SHAPE_PROPS:
         sfp = f"{tmp}.miri.shapes"
-        shp = (sfp, subprocess.Popen(f"cd {ROOT}/harness && cargo +nightly miri run --offline -- --shapes {sfp} > {sfp}.out 2> {sfp}.err",
+        shp = (sfp, subprocess.Popen(f"cd {ROOT}/harness && cargo +nightly miri run --offline -- --shapes {sfp} > {sfp}.out 2> {sfp}.err", start_new_session=True,
                                      shell=True, env=env))
     ub, diff_cases, ran = [], [], 0
     shapes_info = None
@@ -724,7 +737,10 @@ def miri_replay(prop, cases, model_obs, tmp, all_faults, shards=12, per_shard=14
         try:
             rc = p.wait(timeout=3000)
         except subprocess.TimeoutExpired:
-            p.kill()
+            try:
+                os.killpg(p.pid, signal.SIGKILL)
+            except OSError:
+                p.kill()
             rc = -9
         err = open(sfp + ".err").read() if os.path.exists(sfp + ".err") else ""
         if rc == -9:
@@ -744,7 +760,10 @@ def miri_replay(prop, cases, model_obs, tmp, all_faults, shards=12, per_shard=14
         try:
             rc = p.wait(timeout=2400)
         except subprocess.TimeoutExpired:
-            p.kill()
+            try:
+                os.killpg(p.pid, signal.SIGKILL)
+            except OSError:
+                p.kill()
             rc = -9
         err = open(op + ".err").read() if os.path.exists(op + ".err") else ""
         if rc != 0:
